@@ -128,6 +128,58 @@ func zzFirstProbe(g *zzGraph, name string) string {
 	return name + ".none"
 }
 
+// zzCheckCallReturns: when the command after a task-call entry starts, nothing of
+// the callee's single execution (commands, deferred commands) is still to come.
+func zzCheckCallReturns(g *zzGraph, tr []zz.Event) {
+	for _, p := range g.Tasks {
+		for k, c := range p.Cmds {
+			if c.Call == "" || k+1 >= len(p.Cmds) || p.Cmds[k+1].Call != "" || p.Cmds[k+1].Defer {
+				continue
+			}
+			next := zzIndex(tr, "S", zzProbeID(p.Name, k+1), 0)
+			if next < 0 || zzCount(tr, "S", zzProbeID(p.Name, k+1)) != 1 {
+				continue
+			}
+			callee := g.task(c.Call)
+			for j, cc := range callee.Cmds {
+				if cc.Call != "" {
+					continue
+				}
+				id := zzProbeID(callee.Name, j)
+				if zzCount(tr, "S", id) > 1 {
+					continue
+				}
+				for pos, ev := range tr {
+					if ev.ID == id && pos > next {
+						zz.Assert(false, "task-call-returns-only-after-the-callee-finished/"+p.Name+"->"+callee.Name)
+					}
+				}
+			}
+		}
+	}
+}
+
+// ZZ_C02_SharedCall: a call of a shared (run: once) task whose real execution runs
+// on behalf of another task - and gets cancelled there by a failing sibling - still
+// returns only after that execution and its deferred commands finished.
+func ZZ_C02_SharedCall() {
+	probe := zzCmd{}
+	g := &zzGraph{Tasks: []zzTask{
+		{Name: "P", Deps: []string{"S", "F"}},
+		{Name: "C", Cmds: []zzCmd{{Call: "S"}, probe}},
+		{Name: "F", Cmds: []zzCmd{probe}},
+		{Name: "S", Run: "once", Cmds: []zzCmd{{Defer: true}, probe}},
+	}}
+	mayFail := map[string]bool{"F.0": true}
+	tf := g.build(func(id string) bool { return mayFail[id] })
+	tr, _ := zzExec(g, tf, zzRunOpts{Parallel: true}, "P", "C")
+	zzCheckCallReturns(g, tr)
+	if zz.Twin() {
+		zz.Assert(false, "twin")
+	}
+	zz.Reach("end")
+}
+
 func ZZ_C02_Order() {
 	probe := zzCmd{}
 	g := &zzGraph{Tasks: []zzTask{
@@ -141,6 +193,7 @@ func ZZ_C02_Order() {
 	tr, err := zzExec(g, tf, zzRunOpts{Concurrency: zz.Choose("concurrency", zz.Param("maxconc", 0)+1)}, "R")
 	zz.Assert(err == nil, "run-succeeds-when-nothing-fails")
 	zzCheckSeq(g, tr, "B")
+	zzCheckCallReturns(g, tr)
 	if zz.Twin() {
 		zz.Assert(false, "twin")
 	}
@@ -516,12 +569,15 @@ func ZZ_C07_CallLimit() {
 	}
 	e.Logger = zzQuietLogger()
 	e.Compiler = &Compiler{Dir: "", TaskfileEnv: tf.Env, TaskfileVars: tf.Vars, Logger: e.Logger}
+	e.Concurrency = zz.Choose("concurrency", 3)
 	e.setupConcurrencyState()
 	c := zz.Int("calls_so_far", 0, 2000)
 	*e.taskCallCount["A"] = int32(c)
 	err := e.RunTask(context.Background(), &Call{Task: "A"})
 	tr := zz.Trace()
 	zz.Assert(int(*e.taskCallCount["A"]) == c+1, "call-count-increases-by-one")
+	// whatever the outcome, the call hands back every concurrency slot it took
+	zz.Assert(len(e.concurrencySemaphore) == 0, "concurrency-slots-all-returned")
 	if c+1 >= MaximumTaskCall {
 		tm, ok := err.(*errors.TaskCalledTooManyTimesError)
 		zz.Assert(ok && tm.Code() == errors.CodeTaskCalledTooManyTimes, "limit-reached-gives-204")
@@ -646,7 +702,8 @@ func ZZ_C13_Guards() {
 	case 1:
 		g = &zzGraph{Tasks: []zzTask{{Name: "R", Deps: []string{"G"}, Cmds: []zzCmd{probe}}, {Name: "G", Cmds: []zzCmd{probe}}}}
 	default:
-		g = &zzGraph{Tasks: []zzTask{{Name: "R", Cmds: []zzCmd{{Call: "G"}, probe}}, {Name: "G", Cmds: []zzCmd{probe}}}}
+		// ignore_error on the caller covers failing commands, not failing guards
+		g = &zzGraph{Tasks: []zzTask{{Name: "R", IgnoreError: zz.Bool("caller_ignore_error"), Cmds: []zzCmd{{Call: "G"}, probe}}, {Name: "G", Cmds: []zzCmd{probe}}}}
 	}
 	tf := g.build(func(string) bool { return false })
 	gt, _ := tf.Tasks.Get("G")
